@@ -1,5 +1,7 @@
 import PlumpyModel.Persist.Resume
 import PlumpyModel.Outline.Proof
+import PlumpyModel.Persist.Proof6
+import PlumpyModel.Persist.PlainView
 /-!
 # C08 — resuming from any checkpoint reproduces the uninterrupted execution
 
@@ -14,9 +16,22 @@ unchanged, while the stepper goes through save and restore.
 **Plain processes** (chains of `Continue` / `Wait` commands) have no interpreter state: what runs next is the function
 named by the RUNNING state with its `args` / `kwargs` (C13_activation_exact, C13_continue_exact) or the
 `done_callback` of the WAITING state with the resume value (C13_wait_resume_exact).  `C08_continuation_persisted`
-shows that exactly these members (and outputs, inputs, status, paused flag) survive save and load; together with C13
-this is the resume equivalence for plain processes.  The composition itself is not a Lean theorem: it is decided by the
-crash-restore correspondence of harness/props/c08.py on the real code.
+shows that exactly these members (and outputs, inputs, status, paused flag) survive save and load.  The composition is
+**proved on the process-control model** `PMF` (`PM/Model.lean`, the model of C01–C06 / C13) at the end of this file
+(namespace `PMF`): `Persist/Plain.lean` defines what a bundle keeps of a configuration (`saveCfg`), the fresh instance built
+from it (`restoreCfg`) and histories of stepping-task callbacks and `resume` requests in which a callback may be cut at
+step boundaries — checkpoint, abandon, restore, any number of times in a row (`CEv.tick cuts`, `crun`).
+`C08_plain_resume_equiv`: for every program without `waitOn`, every such history and every placement of cuts at step
+boundaries, the call traces of the abandoned instances up to their checkpoints followed by the trace of the last instance
+are the trace of the uninterrupted history (`CEv.ref`: the same events without cuts), and the state objects agree;
+`C08_plain_same_outcome`, `C08_plain_no_reexecution_no_skip`, `C08_plain_same_point`, `C08_plain_restore_at_boundary`;
+`C08_plain_bundle_roundtrip` links `saveCfg` / `restoreCfg` to `Persist.save` / `Persist.load` of C07.
+Hypothesis besides admissibility of the cuts: no callback of the uninterrupted run exhausts the model's fuel (`fuelOk`, as
+in C05 / C06).  By the shape of `CEv.tick cuts` the stepping task of a restored instance gets its first callback before the
+environment's next request (the harness creates the task on restore and runs it until quiescent before it wakes the process).  Not covered by the theorem: pause / play / kill requests in the history (C05 / C04 treat them without
+crashes), work-chain steps that await futures (a WAITING state holding live awaitables cannot be saved, C07).  The tie to
+the code is `pmodel restoreplain` (lean/Driver/PlainRestore.lean): every plain-process crash-restore chain of
+harness/props/c08.py is also run through `crun` and compared (trace, final state, number of restores).
 -/
 namespace Persist
 open Outline
@@ -119,3 +134,159 @@ example : (match runSteps demoW demo 2 (createBlock demo) [] with
 end
 
 end Persist
+
+/-! ## Plain processes: crash / restore in the process-control model -/
+namespace PMF
+
+/-- **resume equivalence for plain processes, any number of checkpoints anywhere**: `evs` is a history of callbacks of the
+stepping task and `resume` requests; each callback may carry cuts `[n₁, …, n_k]` — after `n₁` completed steps the instance
+is checkpointed, abandoned and restored from the bundle in a fresh configuration, the restored instance runs `n₂` steps and
+is checkpointed, abandoned and restored again, … and the last instance runs its callback to the end.  If every cut is taken
+at a step boundary (`cadm`: no step in flight, process live, nothing delivered to the wait future) then, compared with the
+same history without cuts: (1) the calls of user code of all abandoned instances up to their checkpoints followed by those
+of the running instance are exactly the calls of the uninterrupted run (function, positional and keyword arguments, in
+order); (2) the state objects are equal up to the index of the wait future; (3) the process futures agree. -/
+theorem C08_plain_resume_equiv (P : Prog) (hP : NoWaitOn P) (evs : List CEv)
+    (hadm : cadm P cinit evs = true) (hfuel : fuelOk P (init 0) (evs.map CEv.ref) = true) :
+    (crun P cinit evs).trace = (run P (init 0) (evs.map CEv.ref)).trace ∧
+    SSim (crun P cinit evs).cur.st (run P (init 0) (evs.map CEv.ref)).st ∧
+    (crun P cinit evs).cur.fut = (run P (init 0) (evs.map CEv.ref)).fut := by
+  obtain ⟨⟨L, hL, hat⟩, _, _, _⟩ := crun_rel P hP evs cinit (init 0) relS_init hadm hfuel
+  refine ⟨?_, hat.both.core.st.ssim, congrArg ShRec.fut hat.both.core.sh⟩
+  have := hat.both.trace
+  rw [ext_trace, hL] at this
+  exact this
+
+/-- **the outcome is the same**: when the uninterrupted run has terminated, the last instance of the run with crashes holds
+the very same state object — FINISHED with the same result and success flag, EXCEPTED with the same exception, or
+KILLED — and its future is resolved in the same way (and vice versa) -/
+theorem C08_plain_same_outcome (P : Prog) (hP : NoWaitOn P) (evs : List CEv)
+    (hadm : cadm P cinit evs = true) (hfuel : fuelOk P (init 0) (evs.map CEv.ref) = true) :
+    (crun P cinit evs).cur.st.label = (run P (init 0) (evs.map CEv.ref)).st.label ∧
+    (terminal (run P (init 0) (evs.map CEv.ref)).st.label = true →
+      (crun P cinit evs).cur.st = (run P (init 0) (evs.map CEv.ref)).st ∧
+      (crun P cinit evs).cur.fut = (run P (init 0) (evs.map CEv.ref)).fut) := by
+  obtain ⟨_, h2, h3⟩ := C08_plain_resume_equiv P hP evs hadm hfuel
+  refine ⟨h2.label, fun ht => ⟨?_, h3⟩⟩
+  rcases h2 with ⟨heq, _⟩ | ⟨fn, wf, aw, wf', _, h⟩
+  · exact heq
+  · rw [h] at ht; simp [SObj.label, terminal, allowed] at ht
+
+/-- **no step that completed before a checkpoint is executed again, none after it is skipped**: every call of user code
+occurs in the instances of the run with crashes (abandoned ones counted up to their checkpoints) exactly as often as in the
+uninterrupted run, and what the abandoned instances had executed when they were checkpointed is the oldest part of the
+uninterrupted trace (traces are newest first), in the same order -/
+theorem C08_plain_no_reexecution_no_skip (P : Prog) (hP : NoWaitOn P) (evs : List CEv)
+    (hadm : cadm P cinit evs = true) (hfuel : fuelOk P (init 0) (evs.map CEv.ref) = true) :
+    (∀ a : Act, ((crun P cinit evs).cur.trace.count a + (crun P cinit evs).past.count a) =
+      (run P (init 0) (evs.map CEv.ref)).trace.count a) ∧
+    (run P (init 0) (evs.map CEv.ref)).trace = (crun P cinit evs).cur.trace ++ (crun P cinit evs).past := by
+  have h := (C08_plain_resume_equiv P hP evs hadm hfuel).1
+  unfold CState.trace at h
+  refine ⟨fun a => ?_, h.symm⟩
+  rw [← h, List.count_append]
+
+/-- **both runs are at the same point**: the stepping tasks agree on whether a step is in flight, the ENTERED logs end at
+the same label, and nothing but the restored process's own ENTERED log / call trace was lost: the uninterrupted ENTERED log
+ends with the log of the running instance -/
+theorem C08_plain_same_point (P : Prog) (hP : NoWaitOn P) (evs : List CEv)
+    (hadm : cadm P cinit evs = true) (hfuel : fuelOk P (init 0) (evs.map CEv.ref) = true) :
+    (crun P cinit evs).cur.stepping = (run P (init 0) (evs.map CEv.ref)).stepping ∧
+    (crun P cinit evs).cur.closed = (run P (init 0) (evs.map CEv.ref)).closed ∧
+    (∃ older, (run P (init 0) (evs.map CEv.ref)).entered = (crun P cinit evs).cur.entered ++ older) ∧
+    ((crun P cinit evs).cur.pc = .done ↔ (run P (init 0) (evs.map CEv.ref)).pc = .done) := by
+  obtain ⟨⟨L, _, hat⟩, _, _, _⟩ := crun_rel P hP evs cinit (init 0) relS_init hadm hfuel
+  refine ⟨hat.both.stepping, hat.both.closed, ⟨L.e, ?_⟩, ?_⟩
+  · have := congrArg ShRec.entered hat.both.core.sh
+    exact this.symm
+  · have hp := hat.pc
+    rw [ext_pc] at hp
+    constructor
+    · intro h; rw [h] at hp; exact hp
+    · intro h
+      cases hpc : (crun P cinit evs).cur.pc with
+      | done => rfl
+      | notStarted => rw [hpc] at hp; have : _ = Pc.notStarted := hp; rw [this] at h; cases h
+      | crashed e => rw [hpc] at hp; have : _ = Pc.crashed e := hp; rw [this] at h; cases h
+      | awaitPaused pf => rw [hpc] at hp; exact absurd hp (by simp [PcRelAt])
+      | inUser b => rw [hpc] at hp; rw [hp.1] at h; cases h
+      | awaitWaiting wf => rw [hpc] at hp; obtain ⟨_, _, _, _, _, _, hpd⟩ := hp; rw [hpd] at h; cases h
+
+/-- **one restore, at any boundary** (the relation the whole-history theorem is built from): if the running instance `b`
+(with the logs `L` of its predecessors put under its own) and the uninterrupted configuration `d` are between two steps and
+agree up to the heap of wait futures, and `b` is at a step boundary, then the instance restored from `b`'s bundle — fresh
+futures, stepping task not started, logs empty — is related to `d` in the same way once `b`'s own trace is put under it. -/
+theorem C08_plain_restore_at_boundary (b d : Cfg) (L : Logs) (hm : BMid (ext b L) d) (hcl : Clean d) (hI : Inv d)
+    (hb : boundary b = true) :
+    ∃ L' : Logs, L'.t = b.trace ++ L.t ∧ BMid (ext (restoreCfg (saveCfg b)) L') d ∧
+      (restoreCfg (saveCfg b)).pc = .notStarted :=
+  restore_mid b d L hm hcl hI hb
+
+/-- what a bundle carries is all a restored instance has: saving the restored instance gives the same bundle (C07 in the
+process-control model), so a second checkpoint taken before the restored instance did anything is the first one -/
+theorem C08_plain_save_restore_save (c : Cfg) : saveCfg (restoreCfg (saveCfg c)) = saveCfg c := by
+  cases hst : c.st <;> cases hp : c.paused <;> simp [saveCfg, restoreCfg, saveSt, restoreSt, hst, hp]
+
+/-- **what `restoreCfg` builds an instance from is what the persistence model's bundle keeps** (the link to C07): write the
+process-control bundle `saveCfg c` of a plain process into a persisted view (`viewOf`: function / callback by name, `args`,
+`kwargs`, result, exception through a coding `K` that is injective on what occurs; every other member from any savable view
+`base`), save it with `Persist.save`, send it through a medium, load it with `Persist.load` — with the loader of the save
+context or none: the view comes back, its process-control part read off by `savedOf` is `saveCfg c`, and the instance built
+from it is `restoreCfg (saveCfg c)`.  `Persist.save` / `load` iterate the member sets and keys generated from the source, so
+a member dropped from `_auto_persist` breaks this theorem through `load_save`. -/
+theorem C08_plain_bundle_roundtrip (K : Codec) (E : Persist.Env) (ctx ctx' : Option Persist.Loader) (C : Persist.Cls)
+    (hC : C.outline = none) (base : Persist.View) (hE : E.ok ctx) (hbase : Persist.savable C base = true)
+    (hc : ctx' = none ∨ ctx' = ctx) (c : Cfg) (hctx : c.ctx = []) (hcov : K.covers (saveCfg c)) :
+    ∃ v', Persist.load E C ctx' (Persist.Medium.pickle (Persist.save E C ctx (viewOf K base (saveCfg c)))) = .ok v' ∧
+      savedOf K v' = some (saveCfg c) ∧ (savedOf K v').map restoreCfg = some (restoreCfg (saveCfg c)) := by
+  refine ⟨viewOf K base (saveCfg c),
+    Persist.load_save E ctx C _ hE (savable_viewOf K C hC base hbase (saveCfg c)) ctx' hc, ?_, ?_⟩
+  · exact savedOf_viewOf K base (saveCfg c) hctx hcov
+  · rw [savedOf_viewOf K base (saveCfg c) hctx hcov]; rfl
+
+/-! ### non-vacuity -/
+section
+/-- `f0` continues with arguments, `f1` awaits once and waits for a wake-up, `f2(v)` continues, `f3` stops -/
+private def plainDemo : Prog := fun fn a _ _ =>
+  if fn = 0 then ⟨0, .ret (.cont 1 [4, 5] [(1, 6)])⟩ else if fn = 1 then ⟨1, .ret (.wait 2)⟩
+  else if fn = 2 then ⟨0, .ret (.cont 3 a [])⟩ else ⟨0, .ret (.stop (some 9) true)⟩
+example : NoWaitOn plainDemo := by
+  intro fn a k x f aw
+  unfold plainDemo
+  split
+  · intro h; cases h
+  · split
+    · intro h; cases h
+    · split <;> intro h <;> cases h
+/-- three restores: of the freshly created process, again at once, after its first step (inside the synchronous chain
+f0 → f1), and — second callback — of the WAITING process; then the wake-up and two more restores inside the chain f2 → f3 -/
+private def plainHist : List CEv := [.tick [0, 0, 2], .tick [0], .resume (some 7), .tick [0, 1]]
+example : cadm plainDemo cinit plainHist = true := by decide +kernel
+example : fuelOk plainDemo (init 0) (plainHist.map CEv.ref) = true := by decide +kernel
+example : (crun plainDemo cinit plainHist).restores = 6 ∧ (crun plainDemo cinit plainHist).cur.st = .finished (some 9) true ∧
+    ((crun plainDemo cinit plainHist).trace.map fun a => (a.fn, a.args)) = [(3, [7]), (2, [7]), (1, [4, 5]), (0, [])] ∧
+    ((crun plainDemo cinit plainHist).cur.trace.map fun a => a.fn) = [3] := by decide +kernel
+-- the bundle round trip: the process suspended in `f1(4, 5, k1=6)`, values interned by a table, default loader
+private def demoK : Codec :=
+  tableCodec [.args [], .kw [], .args [4, 5], .kw [(1, 6)], .res (some 9)] ["f0", "f1", "f2", "f3"]
+private def demoEnv : Persist.Env := { glob := Persist.defaultLoader, find := fun _ => none, fnName := fun f => s!"s{f}" }
+private def demoBase : Persist.View :=
+  { Persist.blankView (.killed .none .none) with
+    pid := .nat 7
+    inputsParsed := some (.opaque "fd{a:i1}")
+    outputs := [("t0", .opaque "[[],[]]")] }
+example : (saveCfg (run plainDemo (init 0) [.tick])).st = .running 1 [4, 5] [(1, 6)] := by decide +kernel
+example : demoK.covers (saveCfg (run plainDemo (init 0) [.tick])) := by
+  refine ⟨?_, trivial⟩
+  show (1 < 4 ∧ ["f0", "f1", "f2", "f3"].idxOf "f1" = 1) ∧
+    Payload.args [4, 5] ∈ [Payload.args [], .kw [], .args [4, 5], .kw [(1, 6)], .res (some 9)] ∧
+    Payload.kw [(1, 6)] ∈ [Payload.args [], .kw [], .args [4, 5], .kw [(1, 6)], .res (some 9)]
+  decide
+example : demoEnv.ok none := ⟨fun _ => rfl, fun _ h => by cases h⟩
+example : Persist.savable { name := "GenP", outline := none } demoBase = true := by decide
+-- a cut inside a step that is in flight is not admissible
+example : cadm plainDemo cinit [.tick [3]] = false := by decide +kernel
+end
+
+end PMF
+
